@@ -158,6 +158,18 @@ def run(ctx):
                 if any(not c[2] for c in calls) and all(c[1] == "w" for c in calls):   # recordings in progress, nothing starts or stops
                     sig = json.dumps([pscripts[cur]["steps"][k], calls, e.get("err")], sort_keys=True)
             msgs = [ln["out"] for ln in (e.get("logs") or [])]
+            if sig is None and e["ev"] == "frame" and k < len(pscripts[cur]["steps"]):
+                # a start refused on every frame of a run of motion (window closed / disk space missing): once the refusal
+                # has been reported (prev messages non-empty), the next identical frame of the run must report it again
+                st = pscripts[cur]["steps"][k]
+                calls = [(c["s"], c["op"], c["ok"]) for c in e.get("calls") or []]
+                if e.get("motion") and st.get("motion") and (st.get("win") is False or st.get("disk") is False) \
+                        and all(c[1] == "w" and c[2] for c in calls):
+                    sig = json.dumps(["refused", st, calls], sort_keys=True)
+                    if not (prev is not None and prev[0] == sig and prev[1]):
+                        # first frame of the pair (or nothing reported yet): remember, compare from the next one on
+                        prev = (sig, msgs); k += 1
+                        continue
             if sig is not None and prev is not None and prev[0] == sig:
                 nrep += 1
                 f.write(json.dumps(dict(ev="prep", script=cur, step=k, a=prev[1], b=msgs)) + "\n")
